@@ -299,7 +299,7 @@ def c12(tier):
     batch = rl.Batch()
     for structured in (False,):
         sc = rl.Scenario("ten-digit-ids", {"f1.rs": [rl.S(11), rl.S(12, ref=4294967280)], "f2.rs": [rl.S(21)]},
-                         lock=4294967286 - (4294967295 - 9), base=4294967295 - 9, structured=structured)
+                         lock=2, base=4294967295 - 9, structured=structured)       # abstract lock 2 = 4294967288
         rl.planned_runs(binary, sc, [[("edit", ""), ("check", ""), ("edit", "")]], batch, v)
     for prop, name, meta, local, detail in batch.judge(v, set()):
         if prop in ("C06", "C01", "C03"):
